@@ -608,6 +608,41 @@ def r13_let_chain(text):
         cnt += 1
 
 
+def r14_ord_min(text):
+    """R14: method-call form `A.min(B)` / `A.max(B)` on integers -> `std::cmp::min(A, B)` (same function by
+    the definition of `Ord::min`); needed because Verus cannot attach a spec to a provided trait method"""
+    cnt = 0
+    while True:
+        m = mask(text)
+        mm = re.search(r'\.\s*(min|max)\s*\(', m)
+        if not mm:
+            return text, cnt
+        op = mm.end() - 1
+        cl = match_close(m, op)
+        # receiver: scan backwards
+        j = mm.start()
+        k = j
+        if k > 0 and m[k - 1] == ')':
+            depth = 0
+            k -= 1
+            while k >= 0:
+                if m[k] == ')':
+                    depth += 1
+                elif m[k] == '(':
+                    depth -= 1
+                    if depth == 0:
+                        break
+                k -= 1
+        while k > 0 and (m[k - 1].isalnum() or m[k - 1] in '_:'):
+            k -= 1
+        recv = text[k:j]
+        if not recv.strip():
+            raise AnchorLost('R14: cannot find receiver of .min()')
+        arg = text[op + 1:cl]
+        text = text[:k] + 'std::cmp::' + mm.group(1) + '(' + recv + ', ' + arg + ')' + text[cl + 1:]
+        cnt += 1
+
+
 def rename_ident(text, old, new):
     m = mask(text)
     out = []
